@@ -319,6 +319,9 @@ def run(ctx):
                 mc = Case()
                 mc.wi, mc.world, mc.obj, mc.mut, mc.side = c.wi, c.world, c.obj, mu, (side, lab_)
                 mcases.append(mc)
+    cap = 35000 if quick else 150000
+    if len(mcases) > cap:
+        mcases = [mcases[i] for i in sorted(mrng.sample(range(len(mcases)), cap))]
     ctx.log("mutation cases=%d" % len(mcases))
     cout = shards(ctx, drv, "cppm", [cpp_line(c) for c in mcases])
     mout = shards(ctx, mdl, "mlm", [ml_line(c) for c in mcases])
